@@ -262,6 +262,36 @@ def merge_back_oracles(case, w, data, aff, dim, pieces):
                 break
     except Exception as e:
         fails['C03'].append('merging inputs of mixed data types along dim %d raised %r' % (dim, e))
+    # inputs that do not touch: every piece moved a further half step along the merge axis.  The merged image has the longer
+    # step as its column, its extension records that same affine, and the meta data are what the contiguous merge gives
+    if dim < 3 and len(pieces) >= 2 and not case.get('hdr_kind'):
+        try:
+            import nibabel as nb, copy as _copy
+            spaced = []
+            for i, pc in enumerate(pieces):
+                A = pc.nii_img.affine.copy()
+                A[:3, 3] += i * 0.5 * aff[:3, dim]
+                e_ = _copy.deepcopy(pc.meta_ext)
+                e_.affine = A
+                h_ = pc.nii_img.header.copy()
+                while len(h_.extensions):
+                    del h_.extensions[0]
+                h_.extensions.append(e_)
+                im_ = nb.Nifti1Image(np.asanyarray(pc.nii_img.dataobj).copy(), A, h_)
+                spaced.append(NiftiWrapper(im_))
+            sm = NiftiWrapper.from_sequence(spaced, dim)
+            want_col = 1.5 * aff[:3, dim]
+            if not np.allclose(sm.nii_img.affine[:3, dim], want_col, atol=1e-3):
+                fails['C03'].append('pieces 1.5 steps apart merged along dim %d: the merged column is %s, expected %s' % (
+                    dim, sm.nii_img.affine[:3, dim].tolist(), want_col.tolist()))
+            mm = img_matches(sm, full_affine=True)
+            fails['C03'] += ['pieces 1.5 steps apart merged along dim %d: %s' % (dim, f) for f in mm]
+            fails['C07'] += ['merged (pieces 1.5 steps apart): ' + f for f in mm]
+            a_s, a_b = M.ext_to_model(sm.meta_ext), M.ext_to_model(back.meta_ext)
+            if a_s is None or a_b is None or M.canon_model_ext(a_s)['ents'] != M.canon_model_ext(a_b)['ents']:
+                fails['C03'].append('pieces 1.5 steps apart merged along dim %d: meta data differ from the contiguous merge' % dim)
+        except Exception as e:
+            fails['C03'].append('merging pieces 1.5 steps apart along dim %d raised %r' % (dim, e))
     a = M.ext_to_model(back.meta_ext)
     b = M.ext_to_model(w.meta_ext)
     if a is None or M.canon_model_ext(a) != M.canon_model_ext(b):
